@@ -1,14 +1,31 @@
 (** C19 — evaluation of implementation traces: correspondence (model vs observed) and
     the property predicate [Pb] on the observed trace itself. *)
+From Coq Require Import String.
 From Coq Require Import List Bool Arith.
 Import ListNotations.
 Require Import Nib.C19.Sites Nib.C19.Model Nib.C19.Spec.
 
 (** one delivered op with what the implementation published for it *)
 Definition obs_op : Type := op * emit.
-(** one block: its ops and whether EventBlockBloom equalled the union of the log blooms *)
-Definition obs_block : Type := list obs_op * bool.
+
+(** one block as observed on the implementation *)
+Record obs_block := {
+  ob_begin : list obs_op;     (* messages executed in BeginBlock with the logs their events carried (none in the current tree) *)
+  ob_txs   : list obs_op;     (* DeliverTx *)
+  ob_end   : list (string * list (proposal * emit));
+                              (* per message-executing EndBlocker: the proposals that came due in this block and
+                                 the logs of the events each of them published in the EndBlock response *)
+  ob_pubs  : list nat;        (* for every EventBlockBloom of the block: how many logs of the block had been emitted before it *)
+  ob_bloom_ok : bool          (* exactly one EventBlockBloom and it equals the union of the blooms of ALL logs of the block *)
+}.
 Definition case : Type := list obs_block.
+
+Definition block_of (b : obs_block) : block :=
+  {| b_begin := map fst (ob_begin b); b_txs := map fst (ob_txs b);
+     b_end := map (fun me => (fst me, map fst (snd me))) (ob_end b) |}.
+
+Definition observed_emits (b : obs_block) : list emit :=
+  map snd (ob_begin b) ++ map snd (ob_txs b) ++ concat (map (fun me => map snd (snd me)) (ob_end b)).
 
 Fixpoint pairs_eqb (a b : list (nat * nat)) : bool :=
   match a, b with
@@ -27,13 +44,14 @@ Fixpoint emits_eqb (a b : list emit) : bool :=
   | _, _ => false
   end.
 
-Definition block_mismatch (W : sites) (b : obs_block) : bool :=
-  negb (emits_eqb (snd (run_block W (map fst (fst b)))) (map snd (fst b))).
+Definition block_mismatch (W : sites) (O : wiring) (b : obs_block) : bool :=
+  let r := run_full W O (block_of b) in
+  negb (emits_eqb (r_emits r) (observed_emits b) && list_eqb (map (@length _) (r_pubs r)) (ob_pubs b)).
 
-Definition mismatch (W : sites) (c : case) : bool := existsb (block_mismatch W) c.
+Definition mismatch (W : sites) (O : wiring) (c : case) : bool := existsb (block_mismatch W O) c.
 
 Definition block_violates (b : obs_block) : bool :=
-  negb (Pb (map snd (fst b)) && snd b).
+  negb (Pobs_b (observed_emits b) (ob_pubs b) (ob_bloom_ok b)).
 
 Definition violates (c : case) : bool := existsb block_violates c.
 
